@@ -147,6 +147,17 @@ def extract(repo):
             pos = m.end()
         elif required:
             raise ValueError(f"SCOPEfind_for_rename: statement `{nm}` not found where the model expects it: ...{ffr[pos:pos + 160]}")
+    # EXPresolve_op_dot, select branch, no member knows the name: CASE_SKIP_LABEL iff EVERY member is an enumeration - one loop over
+    # the select's own member list that and-s (clears a flag initialised true), then the two reports
+    xp = _norm(_body(rd("src/express/expr.c"), r"\bType\s+EXPresolve_op_dot\s*\(\s*Expression\s+expr\s*,\s*Scope\s+scope\s*\)\s*\{"))
+    if not re.search(r"boolall_enums=true;", xp):
+        raise ValueError("EXPresolve_op_dot: `bool all_enums = true;` not found")
+    if not re.search(r"case0:LISTdo\(op1type->u\.type->body->list,t,Type\)\{if\(t->u\.type->body->type!=enumeration_\)\{all_enums=false;\}\}LISTod;"
+                     r"if\(all_enums\)\{ERRORreport_with_symbol\(CASE_SKIP_LABEL,&op2->symbol,op2->symbol\.name\);\}"
+                     r"else\{ERRORreport_with_symbol\(UNDEFINED_ATTR,&op2->symbol,op2->symbol\.name\);\}resolve_failed\(expr\);return\(Type_Bad\);", xp):
+        raise ValueError("EXPresolve_op_dot: the all-enumerations test of the select branch is not the conjunction over the member list "
+                         "the model expects: ..." + xp[xp.find("case0:"):xp.find("case0:") + 260])
+    dot_conj = True
     uselist_fallback = "uselist" in found
     skips_null = found["full-use"].group("skip") is not None
     # every place outside error.c where the front end asks ERRORis_enabled( CODE ): the check or side effect behind it depends
@@ -184,6 +195,9 @@ def extract(repo):
            f"def useSchemasSkipsNull : Bool := {'true' if skips_null else 'false'}",
            "/-- the look-up carries the chain of schemas being searched and does not re-enter one of them (schemas may USE each other) -/",
            f"def renameSearchGuard : Bool := {'true' if search_guard else 'false'}",
+           "/-- `x.name` on a SELECT nobody of which knows `name`: the warning CASE_SKIP_LABEL iff every member of the select is an",
+           "    enumeration (a conjunction over the member list), the error UNDEFINED_ATTR otherwise -/",
+           f"def dotAllEnumsIsConjunction : Bool := {'true' if dot_conj else 'false'}",
            "/-- the codes some `ERRORis_enabled( CODE )` outside error.c consults -/",
            "def guardedCodeNames : List String := [" + ", ".join(f'"{g}"' for g in guarded) + "]",
            "/-- first line number of a file, and whether the counter restarts for every file that is scanned -/",
